@@ -31,6 +31,20 @@ const char *__asan_default_options(void) { return "detect_leaks=0"; }
 #define C19_OFF(q, p) ((size_t)__CPROVER_POINTER_OFFSET(q))
 #endif
 
+#if defined(WITNESS_MODE) && !defined(REPLAY)
+/* cbmc 6.11 has no library model of memchr ("no body for callee memchr": the result would be an arbitrary pointer).  A changed routine
+ * that starts calling it must still be decided by the bounded concretisation / fallback run, so these runs (small concrete sizes,
+ * loops unwound) get the obvious body; proof runs never see it (there memchr is used through its contract only). */
+#include <string.h>
+void *memchr(const void *s, int c, size_t n)
+{
+    for (size_t vc_i = 0; vc_i < n; vc_i++)
+        if (((const unsigned char *)s)[vc_i] == (unsigned char)c)
+            return (void *)((const unsigned char *)s + vc_i);
+    return (void *)0;
+}
+#endif
+
 /* white space of the argv splitter and the shells (argvc.h: " \r\n\t") */
 #define C19_WS(c) ((c) == ' ' || (c) == '\r' || (c) == '\n' || (c) == '\t')
 
